@@ -69,7 +69,7 @@ class Raise(Exception):
 
 _OPNAME = {ast.Add: '+', ast.Sub: '-', ast.Mult: '*', ast.FloorDiv: '//', ast.Mod: '%', ast.LShift: '<<', ast.RShift: '>>',
            ast.BitAnd: '&', ast.BitOr: '|', ast.BitXor: '^', ast.Div: '/', ast.Pow: '**'}
-_STR_METHODS = ('rstrip', 'lstrip', 'strip', 'startswith', 'endswith', 'lower', 'upper', 'isdigit', 'replace')
+_STR_METHODS = ('rstrip', 'lstrip', 'strip', 'startswith', 'endswith', 'lower', 'upper', 'isdigit', 'replace', 'join', 'split', 'find')
 
 
 class Path:
@@ -185,7 +185,20 @@ class Evaluator:
                 left = right
             return self.conj(parts)
         if isinstance(e, ast.BoolOp):
-            vals = [self.truth(self.ev(x, env, eff)) for x in e.values]
+            raw = []
+            for x in e.values:
+                v = self.ev(x, env, eff)
+                raw.append(v)
+                if not (is_concrete(v) or isinstance(v, dict)):
+                    break
+                # Python semantics on concrete operands: the deciding operand is the value
+                if isinstance(e.op, ast.Or) and v:
+                    return v
+                if isinstance(e.op, ast.And) and not v:
+                    return v
+            else:
+                return raw[-1]
+            vals = [self.truth(v) for v in raw] + [self.truth(self.ev(x, env, eff)) for x in e.values[len(raw):]]
             return self.conj(vals) if isinstance(e.op, ast.And) else self.disj(vals)
         if isinstance(e, ast.IfExp):
             t = self.truth(self.ev(e.test, env, eff))
@@ -196,6 +209,25 @@ class Evaluator:
             return Opq(u(e))
         if isinstance(e, ast.Call):
             return self.call(e, env, eff)
+        if isinstance(e, (ast.ListComp, ast.GeneratorExp)) and len(e.generators) == 1 and not e.generators[0].is_async:
+            gen = e.generators[0]
+            it = self.ev(gen.iter, env, eff)
+            if isinstance(it, tuple) and not is_sym_bool(it):
+                out = []
+                for item in it:
+                    en = dict(env)
+                    self.bind(gen.target, item, en)
+                    keep = True
+                    for cond in gen.ifs:
+                        t = self.truth(self.ev(cond, en, eff))
+                        if t is False:
+                            keep = False
+                        elif t is not True:
+                            return Opq(u(e))
+                    if keep:
+                        out.append(self.ev(e.elt, en, eff))
+                return tuple(out)
+            return Opq(u(e))
         if isinstance(e, ast.Subscript):
             base = self.ev(e.value, env, eff)
             if isinstance(e.slice, ast.Slice):
@@ -307,7 +339,8 @@ class Evaluator:
             recv = self.ev(e.func.value, env, eff)
             if isinstance(recv, str):
                 try:
-                    return getattr(recv, e.func.attr)(*args)
+                    r = getattr(recv, e.func.attr)(*args)
+                    return tuple(r) if isinstance(r, list) else r
                 except Exception:
                     return Opq(u(e))
         if isinstance(e.func, ast.Attribute) and e.func.attr == 'get' and not kw and 1 <= len(args) <= 2 and is_concrete(args[0]):
@@ -322,8 +355,18 @@ class Evaluator:
             if isinstance(env.get(t), tuple) and not is_sym_bool(env[t]):
                 env[t] = env[t] + (args[0],)      # list modelled as a growing tuple
                 return None
-        if ft == 'tuple' and len(args) == 1 and isinstance(args[0], tuple) and not is_sym_bool(args[0]):
+        if ft in ('tuple', 'list') and len(args) == 1 and isinstance(args[0], tuple) and not is_sym_bool(args[0]):
             return args[0]
+        if ft in ('list', 'tuple', 'set', 'frozenset') and not args:
+            return ()
+        if ft == 'enumerate' and len(args) == 1 and isinstance(args[0], tuple) and not is_sym_bool(args[0]):
+            return tuple((i, x) for i, x in enumerate(args[0]))
+        if ft == 'range' and args and all(isinstance(a, int) and not isinstance(a, bool) for a in args) and abs(args[-1 if len(args) < 3 else 1]) < 4096:
+            return tuple(range(*args))
+        if ft == 'len' and len(args) == 1 and isinstance(args[0], tuple) and not is_sym_bool(args[0]):
+            return len(args[0])
+        if ft == 'zip' and args and all(isinstance(a, tuple) and not is_sym_bool(a) for a in args):
+            return tuple(zip(*args))
         if ft in ('int', 'tuple', 'len', 'min', 'max', 'abs') and args and all(is_concrete(a) for a in args) and not kw:
             try:
                 return {'int': int, 'tuple': tuple, 'len': len, 'min': min, 'max': max, 'abs': abs}[ft](*args)
@@ -376,6 +419,10 @@ class Evaluator:
             self.ev(st.value, env, eff)
             return [Path(env, conds, eff, None)]
         if isinstance(st, (ast.Import, ast.ImportFrom, ast.Pass, ast.Global, ast.Assert)):
+            return [Path(env, conds, eff, None)]
+        if isinstance(st, (ast.FunctionDef, ast.ClassDef)):
+            env = dict(env)
+            env[st.name] = Opq('<local %s>' % st.name)
             return [Path(env, conds, eff, None)]
         if isinstance(st, ast.Return):
             eff = list(eff)
